@@ -35,7 +35,17 @@ def setup():
     os.environ.setdefault('MPLBACKEND', 'Agg')
     import numpy as np
     np.seterr(all='ignore')
-    import PseudoNetCDF
+    # the library prints a pyproj notice on stderr while importing
+    olderr = sys.stderr
+    try:
+        sys.stderr = open(os.devnull, 'w')
+        import PseudoNetCDF
+    finally:
+        try:
+            sys.stderr.close()
+        except Exception:
+            pass
+        sys.stderr = olderr
     got = os.path.realpath(PseudoNetCDF.__file__)
     if not got.startswith(src + os.sep):
         raise RuntimeError('PseudoNetCDF imported from %s, not from %s'
